@@ -119,7 +119,7 @@ def run_fragments(ck, ctx, jobs):
     global _JOBS
     # build the shared engines before forking
     ctx.model, ctx.callgraph, ctx.grammar, ctx.lexer
-    n = min(len(jobs), os.cpu_count() or 2, 12)
+    n = min(len(jobs), os.cpu_count() or 2, 12, int(os.environ.get("SDPVERIF_JOBS") or 64))
     if n <= 1:
         results = []
         _JOBS = (ctx, jobs)
